@@ -54,7 +54,10 @@ type admCase struct {
 	Sess  int    `json:"sess"`
 	Pos   int    `json:"pos"` // position of the attempt on its Engine.IO connection
 	V     []int  `json:"v"`
-	J     []int  `json:"j"` // 0: no Join call, 1: Join("r<i>"), 2: Join() with no room, 3: Join("r<i>","shared"), 4: go Join("slow<i>") held in the adapter, 5: go Join("late<i>") started after the answer
+	A     int    `json:"a"`     // CONNECT auth: 0 no pid, 1 a pid/offset the adapter cannot restore, 2 pid+offset of a session the adapter restores
+	Rec   bool   `json:"rec"`   // ServerConnectionStateRecovery.Enabled
+	UseMw bool   `json:"usemw"` // ServerConnectionStateRecovery.UseMiddlewares
+	J     []int  `json:"j"`     // 0: no Join call, 1: Join("r<i>"), 2: Join() with no room, 3: Join("r<i>","shared"), 4: go Join("slow<i>") held in the adapter, 5: go Join("late<i>") started after the answer
 
 	Calls   []viewObs `json:"calls"`   // middleware calls, in the order they happened
 	Handler []viewObs `json:"handler"` // connection handler runs for this case's socket(s)
@@ -133,7 +136,7 @@ func observe(nsp *sio.Namespace, sock sio.ServerSocket, sid string, mw int, k in
 	}
 	o.ReachAll = ad.Sockets(mapset.NewSet[sio.Room]()).Contains(sio.SocketID(sid))
 	o.ReachOwn = ad.Sockets(mapset.NewSet[sio.Room](sio.Room(sid))).Contains(sio.SocketID(sid))
-	names := []string{"shared"}
+	names := []string{"shared", "sess"}
 	for i := 0; i < k; i++ {
 		names = append(names, "r"+strconv.Itoa(i), "slow"+strconv.Itoa(i), "late"+strconv.Itoa(i))
 	}
@@ -162,10 +165,11 @@ const rejectGrace = 300 * time.Millisecond
 type holdAdapter struct {
 	adapter.Adapter
 	mu       sync.Mutex
-	entered  map[string]chan struct{} // sid|room -> closed when AddAll was entered
-	release  map[string]chan struct{} // sid|room -> closed by the script
-	deleted  map[string]chan struct{} // sid -> closed by the first DeleteAll
-	watchdog map[string]bool          // sid -> a hold was ended by the watchdog
+	entered  map[string]chan struct{}             // sid|room -> closed when AddAll was entered
+	release  map[string]chan struct{}             // sid|room -> closed by the script
+	deleted  map[string]chan struct{}             // sid -> closed by the first DeleteAll
+	watchdog map[string]bool                      // sid -> a hold was ended by the watchdog
+	sessions map[string]*adapter.SessionToPersist // pid -> session this adapter can restore (offset "off1")
 }
 
 func (a *holdAdapter) ch(m map[string]chan struct{}, key string) chan struct{} {
@@ -213,11 +217,37 @@ func (a *holdAdapter) DeleteAll(sid sio.SocketID) {
 	closeOnce(a, a.ch(a.deleted, string(sid)))
 }
 
+// The adapter is also the session store of connection state recovery: it restores exactly the
+// sessions the rig registered, for the offset "off1" (an unknown pid, or a known pid with another
+// offset, is not restored - as with the repo's session-aware adapter).
+func (a *holdAdapter) RestoreSession(pid adapter.PrivateSessionID, offset string) (*adapter.SessionToPersist, bool) {
+	a.mu.Lock()
+	defer a.mu.Unlock()
+	sess := a.sessions[string(pid)]
+	if sess == nil || offset != "off1" {
+		return nil, false
+	}
+	cp := *sess
+	return &cp, true
+}
+
+func (r *admRig) registerSession(pid, sid string) {
+	r.hmu.Lock()
+	holds := append([]*holdAdapter{}, r.holds...)
+	r.hmu.Unlock()
+	for _, h := range holds {
+		h.mu.Lock()
+		h.sessions[pid] = &adapter.SessionToPersist{SID: sio.SocketID(sid), PID: adapter.PrivateSessionID(pid),
+			Rooms: []sio.Room{sio.Room(sid), "sess"}}
+		h.mu.Unlock()
+	}
+}
+
 func holdAdapterCreator(reg func(nsp *holdAdapter)) adapter.Creator {
 	inner := adapter.NewInMemoryAdapterCreator()
 	return func(store adapter.SocketStore, pc parser.Creator) adapter.Adapter {
 		h := &holdAdapter{Adapter: inner(store, pc), entered: map[string]chan struct{}{}, release: map[string]chan struct{}{},
-			deleted: map[string]chan struct{}{}, watchdog: map[string]bool{}}
+			deleted: map[string]chan struct{}{}, watchdog: map[string]bool{}, sessions: map[string]*adapter.SessionToPersist{}}
 		reg(h)
 		return h
 	}
@@ -260,11 +290,15 @@ func (r *admRig) caseOf(auth json.RawMessage) *admCase {
 	return r.cases[*a.C]
 }
 
+// connection state recovery configuration of the servers of this run (flags -recovery, -usemw)
+var admRecovery, admUseMw bool
+
 func newAdmRig(name string, k int) (*admRig, error) {
 	r := &admRig{name: name, k: k, cases: map[int]*admCase{}, bySid: map[string]*admCase{},
 		hobs: map[string][]viewObs{}, anyh: map[string]int{}, socks: map[string]sio.ServerSocket{}}
 	cfg := &sio.ServerConfig{}
 	cfg.EIO.WebSocketAcceptOptions = &websocket.AcceptOptions{CompressionMode: websocket.CompressionDisabled}
+	cfg.ServerConnectionStateRecovery = sio.ServerConnectionStateRecovery{Enabled: admRecovery, UseMiddlewares: admUseMw}
 	cfg.AdapterCreator = holdAdapterCreator(func(h *holdAdapter) {
 		r.hmu.Lock()
 		r.holds = append(r.holds, h)
@@ -638,11 +672,24 @@ func (p *rawPeer) wait(nsp string, d time.Duration, types ...int) (rawPkt, strin
 	}
 }
 
-func connectText(nsp string, id int) string {
-	if nsp == "/" {
-		return fmt.Sprintf(`0{"c":%d}`, id)
+func connectText(nsp string, id int) string { return connectTextAuth(nsp, id, 0) }
+
+func connectTextAuth(nsp string, id int, a int) string {
+	auth := fmt.Sprintf(`{"c":%d}`, id)
+	switch a {
+	case 1:
+		if id%2 == 0 {
+			auth = fmt.Sprintf(`{"c":%d,"pid":"bogus-%d","offset":"off1"}`, id, id)
+		} else { // a session the adapter knows, but not at this offset
+			auth = fmt.Sprintf(`{"c":%d,"pid":"good-%d","offset":"nope"}`, id, id)
+		}
+	case 2:
+		auth = fmt.Sprintf(`{"c":%d,"pid":"good-%d","offset":"off1"}`, id, id)
 	}
-	return fmt.Sprintf(`0%s,{"c":%d}`, nsp, id)
+	if nsp == "/" {
+		return "0" + auth
+	}
+	return "0" + nsp + "," + auth
 }
 
 // decode the "message" of a CONNECT_ERROR body into (kind, mw, code)
@@ -693,7 +740,10 @@ func (r *admRig) runSession(cases []*admCase, start <-chan struct{}, wg *sync.Wa
 	pmu.Unlock()
 	for pos, c := range cases {
 		c.Pos = pos
-		p.sendText(connectText(r.name, c.ID))
+		if c.A != 0 {
+			r.registerSession(fmt.Sprintf("good-%d", c.ID), fmt.Sprintf("RESTORED-%d-sid", c.ID))
+		}
+		p.sendText(connectTextAuth(r.name, c.ID, c.A))
 		pk, st := p.wait(r.name, mwWait, 0, 4)
 		if st != "ok" {
 			c.Resp = st
@@ -742,7 +792,13 @@ func (r *admRig) runSession(cases []*admCase, start <-chan struct{}, wg *sync.Wa
 			r.nsp.To(sio.Room(sp.sid)).Emit("probe", c.ID)
 			ev, st := p.wait(r.name, mwWait, 2)
 			c.Probe = st == "ok" && strings.HasPrefix(ev.body, `["probe",`+strconv.Itoa(c.ID))
-			break // the namespace is connected on this connection now
+			// the namespace is connected on this connection now: attempts planned after this one
+			// (only possible if this CONNECT was not expected to be accepted) cannot be made
+			for _, rest := range cases[pos+1:] {
+				rest.Resp = "notrun"
+				rest.Post = viewObs{Mw: -1, Rooms: []string{}, ReachVia: []string{}}
+			}
+			break
 		}
 	}
 }
@@ -795,7 +851,7 @@ func isAccept(v []int) bool {
 }
 
 // runs all cases of one (namespace, k) server; returns finished cases
-func runAdmServer(name string, k int, conc int, rnd *vk.Rand, nextID *int, perConn int, jvFrom int, joinVariants int) ([]*admCase, []string, error) {
+func runAdmServer(name string, k int, conc int, rnd *vk.Rand, nextID *int, perConn int, jvFrom int, joinVariants int, authKinds int) ([]*admCase, []string, error) {
 	r, err := newAdmRig(name, k)
 	if err != nil {
 		return nil, nil, err
@@ -803,36 +859,38 @@ func runAdmServer(name string, k int, conc int, rnd *vk.Rand, nextID *int, perCo
 	t0 := time.Now()
 	var all []*admCase
 	for _, v := range enumVectors(k) {
-		for jv := jvFrom; jv < jvFrom+joinVariants; jv++ {
-			c := &admCase{ID: *nextID, Suite: "adm", Nsp: name, K: k, Conc: conc, V: v, J: make([]int, k),
-				Calls: []viewObs{}, Handler: []viewObs{}, Sids: []string{}, MsgMw: -1, MsgCode: -1, hch: make(chan struct{}), late: make(chan struct{})}
-			*nextID++
-			for i := range c.J {
-				switch jv {
-				case 0:
-					c.J[i] = 0
-				case 1:
-					c.J[i] = rnd.Intn(4)
-				case 2:
-					c.J[i] = 1
-				case 3: // a Join in progress while the rest of the chain runs
-					c.J[i] = 4
-				case 4: // Joins started after the answer
-					c.J[i] = 5
-				default: // anything, at least one asynchronous Join
-					c.J[i] = rnd.Intn(6)
-					if i == 0 {
-						c.J[i] = 4 + rnd.Intn(2)
+		for akind := 0; akind < authKinds; akind++ {
+			for jv := jvFrom; jv < jvFrom+joinVariants; jv++ {
+				c := &admCase{ID: *nextID, Suite: "adm", Nsp: name, K: k, Conc: conc, V: v, J: make([]int, k), A: akind, Rec: admRecovery, UseMw: admUseMw,
+					Calls: []viewObs{}, Handler: []viewObs{}, Sids: []string{}, MsgMw: -1, MsgCode: -1, hch: make(chan struct{}), late: make(chan struct{})}
+				*nextID++
+				for i := range c.J {
+					switch jv {
+					case 0:
+						c.J[i] = 0
+					case 1:
+						c.J[i] = rnd.Intn(4)
+					case 2:
+						c.J[i] = 1
+					case 3: // a Join in progress while the rest of the chain runs
+						c.J[i] = 4
+					case 4: // Joins started after the answer
+						c.J[i] = 5
+					default: // anything, at least one asynchronous Join
+						c.J[i] = rnd.Intn(6)
+						if i == 0 {
+							c.J[i] = 4 + rnd.Intn(2)
+						}
 					}
 				}
+				all = append(all, c)
+				r.cases[c.ID] = c
 			}
-			all = append(all, c)
-			r.cases[c.ID] = c
 		}
 	}
 	// more admitted sockets (the all-accept vector is one in 4^k): five extra ones with random joins
 	for e := 0; e < 5; e++ {
-		c := &admCase{ID: *nextID, Suite: "adm", Nsp: name, K: k, Conc: conc, V: make([]int, k), J: make([]int, k),
+		c := &admCase{ID: *nextID, Suite: "adm", Nsp: name, K: k, Conc: conc, V: make([]int, k), J: make([]int, k), Rec: admRecovery, UseMw: admUseMw,
 			Calls: []viewObs{}, Handler: []viewObs{}, Sids: []string{}, MsgMw: -1, MsgCode: -1, hch: make(chan struct{}), late: make(chan struct{})}
 		*nextID++
 		for i := range c.J {
@@ -848,7 +906,8 @@ func runAdmServer(name string, k int, conc int, rnd *vk.Rand, nextID *int, perCo
 	// sessions: up to perConn rejected attempts, then (when available) one accepted attempt
 	var rej, acc []*admCase
 	for _, c := range all {
-		if isAccept(c.V) {
+		// a session the adapter restores is admitted without the chain when UseMiddlewares is off
+		if isAccept(c.V) || (c.Rec && !c.UseMw && c.A == 2) {
 			acc = append(acc, c)
 		} else {
 			rej = append(rej, c)
@@ -967,6 +1026,9 @@ func middlewareMain(args []string) error {
 	perConn := fs.Int("perconn", 3, "rejected attempts per connection before an accepted one")
 	joinVariants := fs.Int("joinvariants", 3, "join patterns per vector (none, random, Join(r_i); then the asynchronous ones: in progress, late, mixed)")
 	jvFrom := fs.Int("jvfrom", 0, "first join pattern (3 = the asynchronous patterns)")
+	authKinds := fs.Int("authkinds", 1, "CONNECT auth kinds per vector: 1 = no pid only, 3 = no pid / pid the adapter cannot restore / pid+offset of a session it restores")
+	fs.BoolVar(&admRecovery, "recovery", false, "ServerConnectionStateRecovery.Enabled")
+	fs.BoolVar(&admUseMw, "usemw", false, "ServerConnectionStateRecovery.UseMiddlewares")
 	n := fs.Int("n", 0, "case limit (admgo)")
 	outp := fs.String("out", "-", "")
 	fs.Parse(args)
@@ -981,7 +1043,7 @@ func middlewareMain(args []string) error {
 		id := 0
 		for _, name := range []string{"/", "/chat"} {
 			for k := 0; k <= *maxLen; k++ {
-				cases, stray, err := runAdmServer(name, k, *conc, rnd, &id, *perConn, *jvFrom, *joinVariants)
+				cases, stray, err := runAdmServer(name, k, *conc, rnd, &id, *perConn, *jvFrom, *joinVariants, *authKinds)
 				if err != nil {
 					return err
 				}
